@@ -63,6 +63,11 @@ def scenario(sh: Shard, seed, idx, regime):
             elif resp and r.random() < 0.15 and resp[0].ident.swapcase() != resp[0].ident:
                 ident = b"SPA" + resp[0].ident[3:].swapcase()  # differs from the first one by letter case only
                 sh.count("identifiers_differing_by_case_only")
+            elif resp and r.random() < 0.18:
+                # another near miss of the first one: the same text without its separators (what a
+                # front-end may store as a unique id), or with other separators
+                ident = r.choice([resp[0].ident.replace(b":", b""), resp[0].ident.replace(b":", b"-"), resp[0].ident.replace(b":", b"", 1), resp[0].ident + b" "])
+                sh.count("identifiers_differing_by_separators_only")
             script = {"answer_from": r.choice([1, 1, 2, 4, 9, 12]), "loss": r.choice([0, 0, 0.5]), "copies": r.choice([1, 1, 2, 5]), "latency": r.choice([(0.0005, 0.003), (0.05, 0.4), (0.5, 3.0), (8.0, 14.0)])}
             resp.append(Responder(w.net, (f"10.0.0.{10 + i}", 10022), ident, gen_name(r), script, r))
         by_addr = {x.addr: x for x in resp}
